@@ -5,6 +5,7 @@ the process fork()s: the child *is* the schedule "preempt A before line k" — i
 on a real thread (or until B blocks on something A holds: then A is resumed first), lets A finish, and records
 (k, location, rA, rB).  The parent keeps tracing towards k+1.  No sampling: every selected k is executed.
 """
+import _strptime
 import json
 import os
 import sys
@@ -14,6 +15,33 @@ import time
 from .target import REPO
 
 LIB = os.path.join(REPO, "dateparser") + os.sep
+
+
+class _VisibleLock:
+    """Stands in for a `_cache_lock` inside a schedule (child) process: B, finding the lock held by the preempted A,
+    reports that it is blocked (so that A is resumed at once instead of after a timeout) and keeps trying."""
+
+    def __init__(self, real, on_block):
+        self.real, self.on_block = real, on_block
+
+    def __enter__(self):
+        self.acquire()
+        return True
+
+    def __exit__(self, *a):
+        self.real.release()
+
+    def acquire(self, blocking=True, timeout=-1):
+        if self.real.acquire(False):
+            return True
+        if not blocking:
+            return False
+        self.on_block()
+        self.real.acquire()
+        return True
+
+    def release(self):
+        self.real.release()
 
 
 class Tracer:
@@ -67,16 +95,29 @@ class Tracer:
         self.child_k = k
         self.child_loc = (frame.f_code.co_filename[len(LIB):], frame.f_lineno, frame.f_code.co_name)
         self.live = set()
+        # make waiting visible: the stdlib _strptime module and the library's private copy each have a cache lock
+        self.b_event = threading.Event()
+        for m in (_strptime, sys.modules.get("strptime_patched")):
+            if m is not None and hasattr(m, "_cache_lock") and not isinstance(m._cache_lock, _VisibleLock):
+                m._cache_lock = _VisibleLock(m._cache_lock, self._b_blocks)
         t = threading.Thread(target=self._run_b, daemon=True)
         self.b_thread = t
         t.start()
-        t.join(self.b_timeout)
+        self.b_event.wait(self.b_timeout)
         if t.is_alive():
             self.b_blocked = True      # B waits for something A holds: resume A, join B afterwards
         return None
 
+    def _b_blocks(self):
+        if threading.current_thread() is self.b_thread:
+            self.b_blocked = True
+            self.b_event.set()
+
     def _run_b(self):
-        self.b_result.append(self.run_b())
+        try:
+            self.b_result.append(self.run_b())
+        finally:
+            self.b_event.set()
 
     def _reap(self, block):
         while self.live:
